@@ -255,13 +255,17 @@ func nextRangeIndexArgument(cmd string, name string, args Arguments) (int, error
 }
 
 func nextRangeScoreIndexArgument(cmd string, name string, args Arguments) (float64, bool, error) {
-	str, err := args.NextString()
-	if err != nil || len(str) == 0 {
-		return 0, false, newMissingArgumentError(cmd, name, err)
+	str, err := nextStringArgument(cmd, name, args)
+	if err != nil {
+		return 0, false, err
 	}
+	return parseRangeScoreIndex(cmd, name, str)
+}
+
+func parseRangeScoreIndex(cmd string, name string, str string) (float64, bool, error) {
 	offset := 0
 	exclusive := false
-	if str[0] == '(' {
+	if len(str) > 0 && str[0] == '(' {
 		offset = 1
 		exclusive = true
 	}
